@@ -6,7 +6,7 @@ import CssVerif.Lemmas.Normalize
 -/
 namespace CssVerif.SheetSpec
 open CssVerif.Proto (Cps)
-open CssVerif.Struct
+open CssVerif.Struct CssVerif.AtRules
 set_option linter.unusedSimpArgs false
 set_option linter.unusedVariables false
 
@@ -971,142 +971,5 @@ theorem rbrace_closes : push [.brace] rbraceTok = some [] ∧ endTok .default rb
   constructor
   · simp [push, Tok.br, rbraceTok, charTok]
   · decide
-
-/-! ## the sheet -/
-
-/-- an unknown at-rule at sheet level, as the abstract sheet holds it -/
-structure UnknownRuleOk (M : List Cps) (toks : List Tok) : Prop where
-  shape : ∃ t g e stk', toks = t :: g ++ [e] ∧ t.typ = .atkeyword ∧ isMargin M t = false ∧
-    Quiet .default (startStack t) g = true ∧ nest (startStack t) g = some stk' ∧
-    push stk' e = some [] ∧ endTok .default e = true
-  ok : unknownOk toks = true
-
-def SRule.WF (O : Oracle) (M : List Cps) (ns : List (Cps × Cps)) : SRule → Prop
-  | .comment _ => True
-  | .style sel blk => StyleWF O ns sel blk
-  | .unknown t => UnknownRuleOk M t
-
-/-- the rule the parser builds from a spelled rule -/
-def SRule.parsed (O : Oracle) (ns : List (Cps × Cps)) : SRule → Rule
-  | .comment b => .comment (commentTok b)
-  | .style sel blk => .style ns sel.toks (parseDecls O blk.toks)
-  | .unknown t => .unknown t
-
-theorem projRule_parsed (O : Oracle) (M : List Cps) (ns : List (Cps × Cps)) (r : SRule) (h : r.WF O M ns) :
-    projRule (r.parsed O ns) = r.erase := by
-  cases r with
-  | comment b => simp [SRule.parsed, projRule, SRule.erase, commentTok, commentBody, commentVal]
-  | style sel blk =>
-    simp only [SRule.parsed, projRule, SRule.erase]
-    rw [selGroups_render sel h.selWF, parseDecls_block O blk h.blkWF]
-  | unknown t => rfl
-
-theorem sheetLoop_ws (O : Oracle) (M : List Cps) (w : WGap) (x : List Tok) (st : SheetSt) :
-    ∃ st', sheetLoop O M st (WGap.toks w ++ x) = sheetLoop O M st' x ∧ st'.rules = st.rules ∧
-      st'.nsmap = st.nsmap ∧ (w = [] → st' = st) := by
-  induction w generalizing st with
-  | nil => exact ⟨st, rfl, rfl, rfl, fun _ => rfl⟩
-  | cons a w ih =>
-    obtain ⟨st', h1, h2, h3, _⟩ := ih { st with expected := max 1 st.expected }
-    refine ⟨st', ?_, h2, h3, by simp⟩
-    rw [show WGap.toks (a :: w) ++ x = a.tok :: (WGap.toks w ++ x) from rfl, sheetLoop_cons]
-    simpa [sheetStep, Ws.tok] using h1
-
-/-- one spelled rule: the dispatcher consumes exactly its tokens and appends the rule -/
-theorem sheetLoop_rule (O : Oracle) (M : List Cps) (r : SRule) (x : List Tok) (st : SheetSt)
-    (h : r.WF O M st.nsmap) :
-    ∃ st', sheetLoop O M st (r.toks ++ x) = sheetLoop O M st' x ∧
-      st'.rules = st.rules ++ [r.parsed O st.nsmap] ∧ st'.nsmap = st.nsmap := by
-  cases r with
-  | comment b =>
-    refine ⟨{ sheetInsert st (.comment (commentTok b)) with expected := max 1 st.expected }, ?_, ?_, ?_⟩
-    · rw [show (SRule.comment b).toks ++ x = commentTok b :: x from rfl, sheetLoop_cons]
-      simp [sheetStep, commentTok]
-    · simp [sheetInsert, Rule.kind, SRule.parsed]
-    · simp [sheetInsert, Rule.kind]
-  | style sel blk =>
-    obtain ⟨t, ts, ht, hstart, _⟩ := h.selWF.start
-    obtain ⟨b1, b2⟩ := SBlock.bal O blk h.blkWF
-    have hS := (SSel.qb sel h.selWF).1
-    obtain ⟨S', hS'⟩ : ∃ S', sel.toks = t :: S' := ⟨ts ++ (Gap.toks sel.post ++ renderMore sel.more), by
-      simp [SSel.toks, ht]⟩
-    rw [hS'] at hS
-    obtain ⟨q, n⟩ := stmt_shape_block t S' blk.toks hS b1 b2
-    have hstart' := hstart
-    unfold startsRuleset at hstart'
-    have e0 : (SRule.style sel blk).toks ++ x = t :: (S' ++ lbraceTok :: blk.toks) ++ rbraceTok :: x := by
-      simp [SRule.toks, hS']
-    have e1 : t :: (S' ++ lbraceTok :: blk.toks) ++ [rbraceTok] = (SRule.style sel blk).toks := by
-      simp [SRule.toks, hS']
-    have hloop := sheetLoop_stmt O M st t (S' ++ lbraceTok :: blk.toks) rbraceTok [.brace] x
-      (by intro hh; simp [hh] at hstart') (by intro hh; simp [hh] at hstart') (by intro hh; simp [hh] at hstart')
-      (by intro hh; simp [hh] at hstart') (by intro hh; simp [hh] at hstart') q n rbrace_closes.1 rbrace_closes.2
-    rw [e0, hloop, e1, stmtEffect_ruleset O M st t _ hstart, styleRule_render O st.nsmap sel blk h]
-    refine ⟨_, rfl, ?_, ?_⟩
-    · simp [sheetInsert, Rule.kind, SRule.parsed]
-    · simp [sheetInsert, Rule.kind]
-  | unknown toks =>
-    obtain ⟨t, g, e, stk', rfl, ht, hm, hq, hn, hp, he⟩ := h.shape
-    have hloop := sheetLoop_stmt O M st t g e stk' x (by simp [ht]) (by simp [ht]) (by simp [ht])
-      (by simp [ht]) (by simp [ht]) hq hn hp he
-    have e0 : (SRule.unknown (t :: g ++ [e])).toks ++ x = t :: g ++ e :: x := by simp [SRule.toks]
-    have hok : unknownOk (t :: (g ++ [e])) = true := h.ok
-    rw [e0, hloop]
-    refine ⟨_, rfl, ?_, ?_⟩
-    · simp [stmtEffect, ht, hm, hok, sheetInsert, Rule.kind, SRule.parsed]
-    · simp [stmtEffect, ht, hm, hok, sheetInsert, Rule.kind]
-
-theorem sheetLoop_rules (O : Oracle) (M : List Cps) (rules : List (SRule × WGap)) (x : List Tok) (st : SheetSt)
-    (h : ∀ p ∈ rules, p.1.WF O M st.nsmap) :
-    ∃ st', sheetLoop O M st (renderRules rules ++ x) = sheetLoop O M st' x ∧
-      st'.rules = st.rules ++ rules.map (fun p => p.1.parsed O st.nsmap) ∧ st'.nsmap = st.nsmap := by
-  induction rules generalizing st with
-  | nil => exact ⟨st, rfl, by simp, rfl⟩
-  | cons p rest ih =>
-    obtain ⟨r, w⟩ := p
-    obtain ⟨st1, a1, a2, a3⟩ := sheetLoop_rule O M r (WGap.toks w ++ (renderRules rest ++ x)) st (h (r, w) (by simp))
-    obtain ⟨st2, b1, b2, b3, _⟩ := sheetLoop_ws O M w (renderRules rest ++ x) st1
-    obtain ⟨st3, c1, c2, c3⟩ := ih st2 (by
-      intro q hq; rw [b3, a3]; exact h q (by simp [hq]))
-    refine ⟨st3, ?_, ?_, ?_⟩
-    · simp only [renderRules, List.append_assoc]
-      rw [a1, b1, c1]
-    · rw [c2, b2, a2, b3, a3]; simp
-    · rw [c3, b3, a3]
-
-theorem sheetLoop_eof (O : Oracle) (M : List Cps) (st : SheetSt) : sheetLoop O M st [eofTok] = st := by
-  rw [sheetLoop_cons]; simp [sheetStep, eofTok, sheetLoop_nil]
-
-def isNsRule : Rule → Bool
-  | .ns .. => true
-  | _ => false
-
-theorem cleanNamespaces_noNs (rules : List Rule) (h : ∀ r ∈ rules, isNsRule r = false) :
-    cleanNamespaces rules = rules := by
-  unfold cleanNamespaces
-  apply List.filter_eq_self.mpr
-  intro r hr
-  have := h r hr
-  cases r <;> simp_all [isNsRule]
-
-theorem SRule.parsed_notNs (O : Oracle) (ns : List (Cps × Cps)) (r : SRule) : isNsRule (r.parsed O ns) = false := by
-  cases r <;> rfl
-
-/-- what a spelled sheet must satisfy -/
-def SSheet.WF (O : Oracle) (M : List Cps) (s : SSheet) : Prop := ∀ p ∈ s.rules, p.1.WF O M []
-
-/-- the rules `CSSStyleSheet.cssText = tokens` builds from a rendered spelled sheet -/
-theorem parseSheet_render (O : Oracle) (M : List Cps) (s : SSheet) (h : s.WF O M) :
-    parseSheet O M (render s) = s.rules.map (fun p => p.1.parsed O []) := by
-  unfold parseSheet render
-  obtain ⟨st1, a1, a2, a3, _⟩ := sheetLoop_ws O M s.lead (renderRules s.rules ++ [eofTok]) {}
-  obtain ⟨st2, b1, b2, b3⟩ := sheetLoop_rules O M s.rules [eofTok] st1 (by rw [a3]; exact h)
-  rw [a1, b1, sheetLoop_eof, b2, a2, a3]
-  simp only [List.nil_append]
-  apply cleanNamespaces_noNs
-  intro r hr
-  simp only [List.mem_map] at hr
-  obtain ⟨p, _, rfl⟩ := hr
-  exact SRule.parsed_notNs O [] p.1
 
 end CssVerif.SheetSpec
